@@ -112,7 +112,7 @@ def tlc(module, cfgfile, env=None, workers=1, metadir=None, extra=(), timeout=18
         cmd.append('-Xss' + xss)
     if deque:
         cmd.append('-Dtlc2.tool.queue.IStateQueue=StateDeque')
-    cmd += ['-cp', TLA_CP, 'tlc2.TLC', '-workers', str(workers), '-metadir', metadir, '-config', cfgfile]
+    cmd += ['-cp', TLA_CP, 'tlc2.TLC', '-workers', str(workers), '-metadir', metadir, '-noGenerateSpecTE', '-config', cfgfile]
     cmd += list(extra) + [module + '.tla']
     e = dict(os.environ)
     e.pop('JAVA_TOOL_OPTIONS', None)
